@@ -133,7 +133,11 @@ pub const VARS: &[&str] = &["x", "y", "z", "k"];
 
 fn sources(r: &mut Rng) -> T {
     let x = || id("x");
-    match r.below(14) {
+    let cased = || T::Map(["id", "ID", "Id", "iD", "key"].iter().enumerate().map(|(i, k)| (lit(V::Str(k.to_string())), lit(V::Int(i as i64)))).collect());
+    match r.below(17) {
+        14 => mcall(cased(), "map", vec![id("e"), id("e")]),                   // one fixed order, also for keys that differ in case only
+        15 => mcall(cased(), "filter", vec![id("e"), bin("!=", id("e"), lit(V::Str("key".into())))]),
+        16 => mcall(id("k"), "map", vec![id("e"), id("e")]),
         0 => bin("+", x(), lit(V::Int(1))),
         1 => bin("+", id("q"), lit(V::Int(1))),                                // references another program
         2 => mcall(T::List(vec![lit(V::Int(1)), lit(V::Int(2))]), "map", vec![id("e"), bin("+", id("e"), x())]), // macro
@@ -152,7 +156,8 @@ fn sources(r: &mut Rng) -> T {
 }
 
 fn values(r: &mut Rng) -> V {
-    match r.below(8) {
+    match r.below(10) {
+        8 | 9 => V::Map(vec![("A".to_string(), V::Int(1)), ("Ab".to_string(), V::Int(4)), ("a".to_string(), V::Int(2)), ("aB".to_string(), V::Int(5)), ("ab".to_string(), V::Int(3))]),
         0 => V::Int(0),
         1 => V::Int(r.range(-3, 7)),
         2 => V::Bool(r.chance(1, 2)),
@@ -213,6 +218,36 @@ pub fn random_history(r: &mut Rng, len: usize, first_ctx: u64, first_bind: u64) 
             _ => json!({"a":"Exec","c":c,"b":b,"n":r.pick_str(NAMES)}),
         };
         steps.push(ev);
+    }
+    steps
+}
+
+/// Determinism probes (C11): the same source compiled into several contexts, the same values bound into several
+/// binding objects, every pairing executed more than once.  All executions have equal inputs.
+pub fn probe_history(which: usize) -> Vec<J> {
+    let cased = || T::Map(["id", "ID", "Id", "iD", "key"].iter().enumerate().map(|(i, k)| (lit(V::Str(k.to_string())), lit(V::Int(i as i64)))).collect());
+    let src = match which % 4 {
+        0 => mcall(cased(), "map", vec![id("e"), id("e")]),
+        1 => mcall(cased(), "filter", vec![id("e"), bin("!=", id("e"), lit(V::Str("key".into())))]),
+        2 => mcall(id("k"), "map", vec![id("e"), id("e")]),
+        _ => mcall(id("k"), "filter", vec![id("e"), bin("!=", id("e"), lit(V::Str("ab".into())))]),
+    };
+    let kv = V::Map(vec![("A".to_string(), V::Int(1)), ("Ab".to_string(), V::Int(4)), ("a".to_string(), V::Int(2)), ("aB".to_string(), V::Int(5)), ("ab".to_string(), V::Int(3))]);
+    let mut steps = Vec::new();
+    for c in 1..=3u64 {
+        steps.push(json!({"a":"NewCtx","c":c}));
+        steps.push(json!({"a":"AddProgram","c":c,"n":"p","tree":src.to_json(),"pre":c == 3}));
+    }
+    for b in 4..=6u64 {
+        steps.push(json!({"a":"NewBind","b":b}));
+        steps.push(json!({"a":"BindParam","b":b,"n":"k","v":kv.to_json()}));
+    }
+    for _ in 0..2 {
+        for c in 1..=3u64 {
+            for b in 4..=6u64 {
+                steps.push(json!({"a":"Exec","c":c,"b":b,"n":"p"}));
+            }
+        }
     }
     steps
 }
